@@ -43,7 +43,7 @@ def rand_hyper(rng, kind, field):
     if (kind, field) in LR_LIKE:
         return f32(rng.choice([0.001, 0.01, 0.1, 0.5, 10 ** rng.uniform(-3, -0.3)]))
     if field == "eps_":
-        return f32(rng.choice([1e-8, 1e-6, 1e-3, 0.5]))
+        return f32(rng.choice([1e-8, 1e-6, 1e-3, 1e-2, 0.25, 0.5]))
     return f32(rng.choice([0.0, 0.5, 0.9, 0.95, 0.999, rng.uniform(0.05, 0.99)]))
 
 
@@ -224,6 +224,128 @@ def epoch_boundary_histories(T, rng, kinds):
     return out
 
 
+def _norm(vs):
+    return sum(x * x for v in vs for x in v) ** 0.5
+
+
+def eps_histories(T, rng, reps):
+    """(a) every algorithm that has an eps with a NON-default eps (0.25, 1e-2) and O(1) gradients;
+    (b) constructor defaults with tiny gradients (|g| ~ 1e-6), parameters O(1) or tiny:
+    `g / (sqrt(m) + eps)` and `g / sqrt(m + eps)` differ measurably in both."""
+    out = []
+    names = " ".join(T.stat_names)
+    for k in T.kinds:
+        fields = T.fields(k)
+        if "eps_" not in fields:
+            continue
+        for rep in range(reps):
+            for flavour in ("eps", "tiny", "tinyvals"):
+                if flavour == "eps":
+                    h = []
+                    for f in fields:
+                        if f == "eps_":
+                            h.append(f32(rng.choice([0.25, 1e-2])))
+                        elif (k, f) in LR_LIKE:
+                            h.append(f32(rng.choice([0.1, 0.05, 0.5])))
+                        else:
+                            h.append(f32(rng.choice([0.5, 0.9, 0.95, 0.999])))
+                    opt = "opt 0 %s %s" % (k, " ".join(f2x(v) for v in h))
+                    gmag, vmag = 1.0, 1.0
+                else:
+                    opt = "opt 0 %s" % k
+                    gmag, vmag = 1e-6, (1.0 if flavour == "tiny" else 1e-5)
+                n = rng.choice([1, 3, 4])
+                L = ["mode float", "device naive", opt, "state 0",
+                     "param 0 %d %s" % (n, xs([f32(vmag * rng.uniform(0.5, 2) * rng.choice([-1, 1])) for _ in range(n)])), "add 0 0"]
+                if flavour != "eps" and rng.random() < 0.5:
+                    L.append("set 0 lr_scale %s" % f2x(f32(rng.choice([10.0, 100.0]))))
+                for _ in range(rng.randint(4, 7)):
+                    L += ["grad 0 %s" % xs([f32(gmag * rng.uniform(0.5, 2) * rng.choice([-1, 1])) for _ in range(n)]),
+                          "update 0", "pstate 0 " + names]
+                L.append("state 0")
+                out.append(L)
+    return out
+
+
+def cfg_settings_histories(T, rng, reps):
+    """clipping threshold / lr_scale / l2_strength changed through set_configs (not the setters) and
+    through the load of a saved optimizer, each followed by update() with a joint gradient norm on
+    either side of the threshold in force."""
+    out = []
+    names = " ".join(T.stat_names)
+    for k in T.kinds:
+        for rep in range(reps):
+            sizes = [rng.choice([1, 2, 3]) for _ in range(rng.choice([1, 2]))]
+            L = ["mode float", "device naive", "opt 0 %s" % k]
+            for p, n in enumerate(sizes):
+                L.append("param %d %d %s" % (p, n, xs([f32(rng.uniform(-2, 2)) for _ in range(n)])))
+            L.append("addm 0 " + " ".join(str(p) for p in range(len(sizes))))
+            if rng.random() < 0.5:
+                L.append("set 0 clip_threshold %s" % f2x(f32(rng.choice([0.01, 100.0]))))    # a value the setter has seen
+
+            def step(o, base, factor, L=L):
+                """gradients of joint norm N, threshold = factor * N set through set_configs"""
+                gs = [[f32(rng.uniform(-2, 2)) or 1.0 for _ in range(n)] for n in sizes]
+                N = _norm(gs)
+                L.append("cfg %d Optimizer.clip_threshold %s" % (o, f2x(f32(factor * N))))
+                for p, g in enumerate(gs):
+                    L.append("grad %d %s" % (base + p, xs(g)))
+                L.append("update %d" % o)
+                for p in range(len(sizes)):
+                    L.append("pstate %d %s" % (base + p, names))
+                L.append("state %d" % o)
+            for factor in rng.sample([0.5, 2.0, 0.25, 4.0, 0.9, 1.1], 3):
+                step(0, 0, factor)
+            L.append("cfg 0 Optimizer.lr_scale %s" % f2x(f32(rng.choice([0.0, 0.5, 2.0, 3.0]))))
+            L.append("cfg 0 Optimizer.l2_strength %s" % f2x(f32(rng.choice([0.05, 0.5, 1.0]))))
+            step(0, 0, rng.choice([0.3, 3.0]))
+            L.append("cfg 0 Optimizer.l2_strength %s" % f2x(0.0))
+            # through the load of a saved optimizer: the threshold in the file is c; the first update of the
+            # loaded optimizer has norm 2c (clipped), the second c/2 (not clipped)
+            c = f32(rng.choice([0.5, 1.0, 2.0]))
+            L.append("cfg 0 Optimizer.clip_threshold %s" % f2x(c))
+            m = len(sizes)
+            L.append("checkpoint 0 K %s" % " ".join("%d:w%d" % (p, p) for p in range(m)))
+            L.append("restore K 1 %s naive %s" % (k, " ".join(str(m + p) for p in range(m))))
+            L.append("state 1")
+            for factor in (2.0, 0.5):
+                gs = [[f32(rng.uniform(-2, 2)) or 1.0 for _ in range(n)] for n in sizes]
+                N = _norm(gs)
+                gs = [[f32(x * factor * c / N) for x in g] for g in gs]
+                for p, g in enumerate(gs):
+                    L.append("grad %d %s" % (m + p, xs(g)))
+                L.append("update 1")
+                for p in range(m):
+                    L.append("pstate %d %s" % (m + p, names))
+            step(1, m, rng.choice([0.5, 2.0]))
+            out.append(L)
+    return out
+
+
+def late_init_histories(T, rng, reps):
+    """add() of a still-invalid Parameter to a statistics-keeping optimizer throws; the parameter is
+    initialised later and training continues: the epoch advances, only registered parameters are
+    touched by update() and reset_gradients()."""
+    out = []
+    names = " ".join(T.stat_names)
+    for k in T.kinds:
+        if not T.has_stats(k):
+            continue
+        for rep in range(reps):
+            v = lambda n: xs([f32(rng.uniform(-2, 2)) for _ in range(n)])
+            first_invalid = rng.random() < 0.5
+            L = ["mode float", "device naive", "opt 0 %s" % k, "param 0 2 %s" % v(2), "param 1 invalid"]
+            L += (["add 0 1", "add 0 0"] if first_invalid else ["add 0 0", "add 0 1"])
+            L += ["grad 0 %s" % v(2), "update 0", "pstate 0 " + names, "state 0",
+                  "init 1 3 %s" % v(3), "pstate 1 " + names, "grad 1 %s" % v(3), "grad 0 %s" % v(2), "update 0",
+                  "pstate 0 " + names, "pstate 1 " + names, "state 0", "reset 0", "pstate 0 " + names, "pstate 1 " + names]
+            if rng.random() < 0.7:
+                L += ["add 0 1", "grad 1 %s" % v(3), "grad 0 %s" % v(2), "update 0", "pstate 0 " + names, "pstate 1 " + names,
+                      "state 0", "reset 0", "pstate 1 " + names]
+            out.append(L)
+    return out
+
+
 def malformed(T):
     one = f2x(1.0)
     return ["mode float", "bogus", "opt 0", "opt 0 NoSuchOptimizer", "opt 1 SGD", "opt 0 Adam %s" % one, "opt 0 SGD %s" % one,
@@ -356,7 +478,9 @@ def run(chk):
     chk.rule = ("training histories on one optimizer generated from one PRNG: algorithm (six), hyper-parameters (constructor defaults, "
                 "random, or dyadic), 1-3 parameters of shapes []..[2,1,2] plus an unregistered bystander, then up to %d steps drawn from "
                 "{write gradients + update + observe, setters (also negative, -0, 0), set_epoch, set_configs with one key (own, base, "
-                "foreign, unknown), add (new, double, invalid, as Model, mid-training), reset_gradients}; every history is executed by the "
+                "foreign, unknown), add (new, double, invalid, as Model, mid-training), reset_gradients}; plus scripted families: epoch "
+                "boundaries, non-default eps / tiny gradients, settings changed through set_configs and through a loaded optimizer "
+                "with the joint norm on either side of the threshold, late Parameter::init after a failed add; every history is executed by the "
                 "real library (ASan/UBSan build), by the Lean model (generated rules + Model/Optimizer.lean) and by the Lean "
                 "specification (Spec/Optimizers.lean). SGD/MomentumSGD histories on dyadic data are compared exactly as rationals, the "
                 "others in float32 within |a-b| <= 2^-18 max(|a|,|b|,1) (model) / 2^-11 max(|a|,|b|,1) (specification). Non-trivial = the call succeeded; distinct = "
@@ -387,6 +511,10 @@ def run(chk):
     hists += defect16(T)
     hists.append(malformed(T))
     hists += epoch_boundary_histories(T, chk.rng, ["Adam"] if quick else T.kinds)
+    special = (eps_histories(T, chk.rng, 1 if quick else 12) + cfg_settings_histories(T, chk.rng, 1 if quick else 12) +
+               late_init_histories(T, chk.rng, 1 if quick else 12))
+    chk.extra_cov["eps_cfg_settings_late_init_histories"] = len(special)
+    hists += special
     for i in range(n_hist):
         ms = max_steps if (quick or i % 10 == 0) else 40
         dc = (i % 8 == 3) if quick else (i % 4 == 3)
